@@ -64,4 +64,166 @@ __CPROVER_requires(C17_PRE)
 __CPROVER_requires(__CPROVER_is_fresh(out, sizeof(int)))
 __CPROVER_assigns(*out, h3v_live, h3v_failed)
 __CPROVER_ensures(C17_POST(__CPROVER_return_value));
+
+/* ================= experimental polyfill (C17, C15 flag/capacity clauses) =================
+ * Ownership invariant of a polygon iterator: it owns exactly the block _bboxes (if non-NULL), so
+ *   h3v_live == h3v_live0 + (_bboxes != NULL),  h3v_live0 = live blocks at entry of the API call (ghost set by the caller) */
+#include "polyfill.h"
+#include "polygon.h"
+extern int64_t h3v_live0;
+#define S_FLAGS_OK(flags) ((((flags) & ~(uint32_t)15) == 0) && (((flags) & 15) < 4))
+#define C17_OWN(bboxes) (h3v_live == h3v_live0 + ((bboxes) != NULL ? 1 : 0))
+#define C17_IT_INV(cell, error, bboxes)                                                               \
+    (C17_OWN(bboxes) && ((cell) == 0 ==> (bboxes) == NULL) && (error) <= 15 && ((error) != 0 ==> (cell) == 0) && \
+     (h3v_failed ==> ((cell) == 0 && (error) == S_ERR_MEMORY_ALLOC)))
+
+IterCellsPolygon iterInitPolygon_c17(const GeoPolygon *polygon, int res, uint32_t flags)
+__CPROVER_requires(C17_PRE && h3v_live == h3v_live0)
+__CPROVER_requires(__CPROVER_is_fresh(polygon, sizeof(GeoPolygon)) && polygon->numHoles >= 0 && polygon->numHoles <= (1 << 20))
+__CPROVER_assigns(h3v_live, h3v_failed)
+__CPROVER_ensures(__CPROVER_return_value._cellIter.cell != 0 ==> __CPROVER_is_fresh(__CPROVER_return_value._cellIter._bboxes, sizeof(BBox)))
+__CPROVER_ensures(C17_IT_INV(__CPROVER_return_value.cell, __CPROVER_return_value.error, __CPROVER_return_value._cellIter._bboxes))
+__CPROVER_ensures((__CPROVER_return_value._cellIter.cell == 0 ==> __CPROVER_return_value._cellIter._bboxes == NULL) &&
+                  __CPROVER_return_value._cellIter.error <= 15 &&
+                  (__CPROVER_return_value._cellIter.error != 0 ==> __CPROVER_return_value._cellIter.cell == 0) &&
+                  (h3v_failed ==> __CPROVER_return_value._cellIter.error == S_ERR_MEMORY_ALLOC) &&
+                  (__CPROVER_return_value._cellIter.cell != 0 ==>
+                   (S_RES(__CPROVER_return_value._cellIter.cell) <= __CPROVER_return_value._cellIter._res && __CPROVER_return_value._cellIter._res <= 15)))
+__CPROVER_ensures((res < 0 || res > 15) ==> (__CPROVER_return_value.cell == 0 && __CPROVER_return_value.error == S_ERR_RES_DOMAIN && !h3v_failed))
+__CPROVER_ensures((res >= 0 && res <= 15 && !S_FLAGS_OK(flags)) ==>
+                  (__CPROVER_return_value.cell == 0 && __CPROVER_return_value.error == S_ERR_OPTION_INVALID && !h3v_failed));
+
+/* the wrapping iterator additionally keeps: inner cell == 0 ==> no block owned; outer cell != 0 ==> inner cell != 0 */
+#define C17_IT2_INV(it)                                                                     \
+    (C17_IT_INV((it)->cell, (it)->error, (it)->_cellIter._bboxes) &&                         \
+     ((it)->_cellIter.cell == 0 ==> (it)->_cellIter._bboxes == NULL) &&                      \
+     ((it)->_cellIter.error <= 15) && ((it)->_cellIter.error != 0 ==> (it)->_cellIter.cell == 0) && \
+     ((it)->_cellIter.cell != 0 ==> (S_RES((it)->_cellIter.cell) <= (it)->_cellIter._res && (it)->_cellIter._res <= 15)) && \
+     (h3v_failed ==> (it)->_cellIter.error == S_ERR_MEMORY_ALLOC))
+/* two variants of each contract whose implementation frees the block: *_c17 (with frees clause; enforced on the real code)
+ * and *_c17r (same clauses without frees/is_freeable; used when a caller is verified, where only the ghost count matters) */
+#define ITERSTEPPOLYGON_CONTRACT(NAME, FREEABLE, FREES)                                   \
+void NAME(IterCellsPolygon *iter)                                                         \
+__CPROVER_requires(__CPROVER_rw_ok(iter, sizeof(IterCellsPolygon)))                       \
+__CPROVER_requires(C17_IT2_INV(iter))                                                     \
+FREEABLE                                                                                  \
+__CPROVER_assigns(*iter, h3v_live)                                                        \
+FREES                                                                                     \
+__CPROVER_ensures(C17_IT2_INV(iter));
+ITERSTEPPOLYGON_CONTRACT(iterStepPolygon_c17,
+    __CPROVER_requires(iter->_cellIter._bboxes == NULL || __CPROVER_is_freeable(iter->_cellIter._bboxes)),
+    __CPROVER_frees(iter->_cellIter._bboxes))
+ITERSTEPPOLYGON_CONTRACT(iterStepPolygon_c17r, , )
+
+void iterStepChild_frame(IterCellsChildren *it)
+__CPROVER_requires(__CPROVER_rw_ok(it, sizeof(IterCellsChildren)))
+__CPROVER_assigns(*it)
+__CPROVER_ensures(1);
+void _iterInitParent_frame(H3Index h, int childRes, IterCellsChildren *it)
+__CPROVER_requires(__CPROVER_rw_ok(it, sizeof(IterCellsChildren)))
+__CPROVER_assigns(*it)
+__CPROVER_ensures((childRes >= S_RES(h) && childRes <= 15 && h != 0) ==> it->h != 0)
+__CPROVER_ensures(h == 0 ==> it->h == 0);
+
+#define ITERDESTROYPOLYGON_CONTRACT(NAME, FREEABLE, FREES)                                \
+void NAME(IterCellsPolygon *iter)                                                         \
+__CPROVER_requires(__CPROVER_rw_ok(iter, sizeof(IterCellsPolygon)))                       \
+__CPROVER_requires(C17_OWN(iter->_cellIter._bboxes))                                      \
+FREEABLE                                                                                  \
+__CPROVER_assigns(*iter, h3v_live)                                                        \
+FREES                                                                                     \
+__CPROVER_ensures(h3v_live == h3v_live0 && iter->cell == 0 && iter->error == 0 && iter->_cellIter._bboxes == NULL);
+ITERDESTROYPOLYGON_CONTRACT(iterDestroyPolygon_c17,
+    __CPROVER_requires(iter->_cellIter._bboxes == NULL || __CPROVER_is_freeable(iter->_cellIter._bboxes)),
+    __CPROVER_frees(iter->_cellIter._bboxes))
+ITERDESTROYPOLYGON_CONTRACT(iterDestroyPolygon_c17r, , )
+
+IterCellsPolygonCompact _iterInitPolygonCompact_c17(const GeoPolygon *polygon, int res, uint32_t flags)
+__CPROVER_requires(C17_PRE && h3v_live == h3v_live0)
+__CPROVER_requires(__CPROVER_is_fresh(polygon, sizeof(GeoPolygon)) && polygon->numHoles >= 0 && polygon->numHoles <= (1 << 20))
+__CPROVER_assigns(h3v_live, h3v_failed)
+/* NOTE: is_fresh clauses come first: when the contract replaces a call they ASSIGN the pointer, so every clause that
+ * mentions the pointer must be evaluated after them */
+__CPROVER_ensures(__CPROVER_return_value.error == 0 ==> __CPROVER_is_fresh(__CPROVER_return_value._bboxes, sizeof(BBox)))
+__CPROVER_ensures(C17_OWN(__CPROVER_return_value._bboxes) && __CPROVER_return_value.error <= 15 &&
+                  (__CPROVER_return_value.error != 0 ==> (__CPROVER_return_value.cell == 0 && __CPROVER_return_value._bboxes == NULL)) &&
+                  (__CPROVER_return_value.error == 0 ==> (__CPROVER_return_value.cell != 0 && !h3v_failed &&
+                                                          __CPROVER_return_value._res == res)) &&
+                  (h3v_failed ==> __CPROVER_return_value.error == S_ERR_MEMORY_ALLOC))
+__CPROVER_ensures((res < 0 || res > 15) ==> (__CPROVER_return_value.error == S_ERR_RES_DOMAIN && !h3v_failed))
+__CPROVER_ensures((res >= 0 && res <= 15 && !S_FLAGS_OK(flags)) ==> (__CPROVER_return_value.error == S_ERR_OPTION_INVALID && !h3v_failed));
+
+IterCellsPolygonCompact iterInitPolygonCompact_c17(const GeoPolygon *polygon, int res, uint32_t flags)
+__CPROVER_requires(C17_PRE && h3v_live == h3v_live0)
+__CPROVER_requires(__CPROVER_is_fresh(polygon, sizeof(GeoPolygon)) && polygon->numHoles >= 0 && polygon->numHoles <= (1 << 20))
+__CPROVER_assigns(h3v_live, h3v_failed)
+__CPROVER_ensures(__CPROVER_return_value.cell != 0 ==> __CPROVER_is_fresh(__CPROVER_return_value._bboxes, sizeof(BBox)))
+__CPROVER_ensures(C17_OWN(__CPROVER_return_value._bboxes) && __CPROVER_return_value.error <= 15 &&
+                  (__CPROVER_return_value.cell == 0 ==> __CPROVER_return_value._bboxes == NULL) &&
+                  (__CPROVER_return_value.error != 0 ==> __CPROVER_return_value.cell == 0) &&
+                  (h3v_failed ==> (__CPROVER_return_value.error == S_ERR_MEMORY_ALLOC && __CPROVER_return_value.cell == 0)) &&
+                  (__CPROVER_return_value.cell != 0 ==> (S_RES(__CPROVER_return_value.cell) <= __CPROVER_return_value._res &&
+                                                         __CPROVER_return_value._res <= 15 && __CPROVER_return_value._res == res)))
+__CPROVER_ensures((res < 0 || res > 15) ==> (__CPROVER_return_value.error == S_ERR_RES_DOMAIN && !h3v_failed))
+__CPROVER_ensures((res >= 0 && res <= 15 && !S_FLAGS_OK(flags)) ==> (__CPROVER_return_value.error == S_ERR_OPTION_INVALID && !h3v_failed));
+
+#define ITERSTEPCOMPACT_CONTRACT(NAME, FREEABLE, FREES)                                   \
+void NAME(IterCellsPolygonCompact *iter)                                                  \
+__CPROVER_requires(__CPROVER_rw_ok(iter, sizeof(IterCellsPolygonCompact)))                \
+__CPROVER_requires(C17_OWN(iter->_bboxes) && (iter->cell == 0 ==> iter->_bboxes == NULL)) \
+__CPROVER_requires(iter->cell == 0 || !h3v_failed)                                        \
+FREEABLE                                                                                  \
+__CPROVER_assigns(*iter, h3v_live)                                                        \
+FREES                                                                                     \
+__CPROVER_ensures(C17_OWN(iter->_bboxes) && (iter->cell == 0 ==> iter->_bboxes == NULL) && iter->error <= 15 && \
+                  (iter->error != 0 ==> iter->cell == 0) &&                               \
+                  (__CPROVER_old(iter->cell) != 0 ==> iter->error != S_ERR_MEMORY_ALLOC) && \
+                  (__CPROVER_old(iter->cell) == 0 ==> (iter->error == __CPROVER_old(iter->error) && iter->cell == 0)) && \
+                  (iter->_bboxes == NULL || iter->_bboxes == __CPROVER_old(iter->_bboxes)) && \
+                  (iter->cell != 0 ==> (iter->_res == __CPROVER_old(iter->_res) && S_RES(iter->cell) <= iter->_res)));
+/* ASSUMED (not enforced: its body is the geometric polygon walk): */
+ITERSTEPCOMPACT_CONTRACT(iterStepPolygonCompact_c17,
+    __CPROVER_requires(iter->_bboxes == NULL || __CPROVER_is_freeable(iter->_bboxes)),
+    __CPROVER_frees(iter->_bboxes))
+ITERSTEPCOMPACT_CONTRACT(iterStepPolygonCompact_c17r, , )
+
+void iterDestroyPolygonCompact_c17(IterCellsPolygonCompact *iter)
+__CPROVER_requires(__CPROVER_rw_ok(iter, sizeof(IterCellsPolygonCompact)))
+__CPROVER_requires(C17_OWN(iter->_bboxes))
+__CPROVER_requires(iter->_bboxes == NULL || __CPROVER_is_freeable(iter->_bboxes))
+__CPROVER_assigns(*iter, h3v_live)
+__CPROVER_frees(iter->_bboxes)
+__CPROVER_ensures(h3v_live == h3v_live0 && iter->cell == 0 && iter->error == 0 && iter->_bboxes == NULL);
+
+H3Error cellToChildrenSize_frame(H3Index h, int childRes, int64_t *out)
+__CPROVER_requires(__CPROVER_rw_ok(out, sizeof(int64_t)))
+__CPROVER_assigns(*out)
+__CPROVER_ensures(__CPROVER_return_value <= 15);
+
+void bboxesFromGeoPolygon_frame(const GeoPolygon *polygon, BBox *bboxes)
+__CPROVER_requires(__CPROVER_r_ok(polygon, sizeof(GeoPolygon)))
+__CPROVER_assigns(__CPROVER_object_whole(bboxes))
+__CPROVER_ensures(1);
+
+/* ---- the two API functions */
+H3Error polygonToCellsExperimental_c17(const GeoPolygon *polygon, int res, uint32_t flags, int64_t size, H3Index *out)
+__CPROVER_requires(C17_PRE && h3v_live == h3v_live0)
+/* a buffer of `size` cells (at least one cell, so that the pointer is a valid object also for size <= 0) */
+__CPROVER_requires(__CPROVER_is_fresh(out, sizeof(H3Index) * (size > 0 ? size : 1)))
+__CPROVER_requires(__CPROVER_is_fresh(polygon, sizeof(GeoPolygon)) && polygon->numHoles >= 0 && polygon->numHoles <= (1 << 20))
+__CPROVER_requires(size <= (((int64_t)1) << 40))
+__CPROVER_assigns(__CPROVER_object_whole(out), h3v_live, h3v_failed)
+__CPROVER_ensures(C17_POST(__CPROVER_return_value))
+/* C15 / C12: invalid resolution or flags are reported as such */
+__CPROVER_ensures((res < 0 || res > 15) ==> __CPROVER_return_value == S_ERR_RES_DOMAIN)
+__CPROVER_ensures((res >= 0 && res <= 15 && !S_FLAGS_OK(flags)) ==> __CPROVER_return_value == S_ERR_OPTION_INVALID);
+
+H3Error maxPolygonToCellsSizeExperimental_c17(const GeoPolygon *polygon, int res, uint32_t flags, int64_t *out)
+__CPROVER_requires(C17_PRE && h3v_live == h3v_live0)
+__CPROVER_requires(__CPROVER_is_fresh(polygon, sizeof(GeoPolygon)) && __CPROVER_is_fresh(out, sizeof(int64_t)))
+__CPROVER_requires(polygon->numHoles >= 0 && polygon->numHoles <= (1 << 20))
+__CPROVER_assigns(*out, h3v_live, h3v_failed)
+__CPROVER_ensures(C17_POST(__CPROVER_return_value))
+__CPROVER_ensures((polygon->geoloop.numVerts != 0 && (res < 0 || res > 15)) ==> __CPROVER_return_value == S_ERR_RES_DOMAIN)
+__CPROVER_ensures((polygon->geoloop.numVerts != 0 && res >= 0 && res <= 15 && !S_FLAGS_OK(flags)) ==> __CPROVER_return_value == S_ERR_OPTION_INVALID);
 #endif
